@@ -189,6 +189,10 @@ def run_one(seed, tape, opts):
             # stopping): it is neither "a connection whose buffer drained"
             # nor "no connection" yet. Not judged; counted.
             sim.note("probe.connection_closing")
+            if e.sendbuf_len() > sim.net.high_water:
+                # ... but a send buffer over the high-water mark is full
+                # whoever is or is not registered with the transport
+                return False
             return None
         return not e.transport.producerPaused
     ctx.writable = writable
